@@ -539,6 +539,14 @@ def raceRun (o : Op) : List RaceKind → Op × List Bool
 def race (o : Op) (order : List RaceKind) : Op × List Bool :=
   raceRun { (o.to .started).1 with startedOld := true } order
 
+/-- GetOpInfluence: `CheckTimeout` / `CheckSuccess` on every running operator (the statuses turn lazily;
+    the influence itself is not modelled) -/
+def touchRunning (c : Ctl) : Ctl :=
+  c.running.foldl (fun c x =>
+    match c.getOp x.2 with
+    | some o => c.setOp o.checkTimeout.1
+    | none => c) c
+
 /-! ### events -/
 
 /-- cluster.PutRegion -/
@@ -560,6 +568,7 @@ inductive Ev where
   | expire (id : Nat)                      -- time passes: a created operator becomes old
   | markTimeout (id : Nat)                 -- time passes: a started operator becomes old
   | sleep (ms : Nat)                       -- time passes: notifier entries come closer to being due
+  | influence                              -- GetOpInfluence
   deriving Repr, Inhabited
 
 def stepEv (c : Ctl) : Ev → Ctl × List Msg
@@ -583,6 +592,7 @@ def stepEv (c : Ctl) : Ev → Ctl × List Msg
      | some o => if o.status == .started then c.setOp { o with startedOld := true } else c
      | none => c, [])
 
+  | .influence => (touchRunning c, [])
   | .sleep ms => ({ c with queue := c.queue.map (fun x => { x with left := x.left - ms }) }, [])
 
 def runEv (c : Ctl) (evs : List Ev) : Ctl := evs.foldl (fun c e => (stepEv c e).1) c
